@@ -142,8 +142,9 @@ class OrthModel(numeric.Model):
 #              ["R", k]                                sqrt(k)
 # term spec  : {"coef": "p/q", "facs": [...]}
 # case spec  : {"name": "U", "terms": [...], "targets": None | [idx...],
-#               "sort": [space, spin], "kind": label}
-CARRIERS = ("N", "A0", "A1", "S0", "S1", "M", "AU")
+#               "sort": [space, spin], "kind": label,
+#               "assume": None | "sym" | "antisym"}
+CARRIERS = ("N", "A0", "A1", "Am1", "S0", "S1", "Sm1", "M", "AU")
 
 
 def _sym(i):
@@ -161,6 +162,10 @@ def build_tensor(name, carrier, idx):
         return AntiSymmetricTensor(name, (s[0],), (s[1],), 0)
     if carrier == "A1":
         return AntiSymmetricTensor(name, (s[0],), (s[1],), 1)
+    if carrier == "Am1":          # bra-ket antisymmetric: U^p_q = -U^q_p
+        return AntiSymmetricTensor(name, (s[0],), (s[1],), -1)
+    if carrier == "Sm1":
+        return SymmetricTensor(name, (s[0],), (s[1],), -1)
     if carrier == "S0":
         return SymmetricTensor(name, (s[0],), (s[1],), 0)
     if carrier == "S1":
@@ -205,9 +210,16 @@ def build_expr(spec):
                          *[build_factor(f, spec["name"]) for f in t["facs"]],
                          evaluate=True))
     e = Add(*terms)
-    if spec["targets"] is None:
-        return Expr(e)
-    return Expr(e, target_idx=tuple(_sym(i) for i in spec["targets"]))
+    kw = {}
+    # optional: bra-ket (anti)symmetry declared through the assumptions of
+    # the expression instead of the tensor objects
+    if spec.get("assume") == "sym":
+        kw["sym_tensors"] = (spec["name"],)
+    elif spec.get("assume") == "antisym":
+        kw["antisym_tensors"] = (spec["name"],)
+    if spec["targets"] is not None:
+        kw["target_idx"] = tuple(_sym(i) for i in spec["targets"])
+    return Expr(e, **kw)
 
 
 # ------------------------------------------------------------------- tracer
